@@ -36,7 +36,7 @@ func main() {
 	violations := 0
 	known := map[string]int64{}
 	extra := map[string]any{}
-	var assumptions, inconcl []string
+	assumptions, inconcl := []string{}, []string{}
 	seenAss := map[string]bool{}
 	rule := ""
 	phases := []any{}
